@@ -222,10 +222,42 @@ def build_ocaml_driver(name, coq_extract_v, driver_ml, timeout=600):
 # ---------------------------------------------------------------- findings
 
 def load_known():
+    """known_findings.json plus the staging files known_findings.d/*.json"""
+    out = []
     p = os.path.join(VERIF, "known_findings.json")
-    if not os.path.exists(p):
-        return []
-    return json.load(open(p)).get("findings", [])
+    if os.path.exists(p):
+        out += json.load(open(p)).get("findings", [])
+    dd = os.path.join(VERIF, "known_findings.d")
+    if os.path.isdir(dd):
+        for fn in sorted(os.listdir(dd)):
+            if fn.endswith(".json"):
+                try:
+                    for f in json.load(open(os.path.join(dd, fn))).get("findings", []):
+                        if not any(g.get("key") == f.get("key") and g.get("property") == f.get("property") for g in out):
+                            out.append(f)
+                except (ValueError, OSError):
+                    pass
+    return out
+
+
+def coq_closure(vfile):
+    """relative paths of the .v files a Coq file depends on inside /verif/coq (via `From GD Require ...`)"""
+    seen = []
+    todo = [vfile]
+    while todo:
+        f = todo.pop()
+        if f in seen or not os.path.exists(os.path.join(COQ, f)):
+            continue
+        seen.append(f)
+        txt = re.sub(r"\(\*.*?\*\)", "", open(os.path.join(COQ, f), errors="replace").read(), flags=re.S)
+        for m in re.finditer(r"From\s+GD\s+Require\s+(?:Import\s+|Export\s+)?(.*?)\.(?=\s|$)", txt, re.S):
+            for mod in m.group(1).split():
+                todo.append(mod.replace(".", "/") + ".v")
+        for m in re.finditer(r"Require\s+(?:Import\s+|Export\s+)?(.*?)\.(?=\s|$)", txt, re.S):
+            for mod in m.group(1).split():
+                if mod.startswith("GD."):
+                    todo.append(mod[3:].replace(".", "/") + ".v")
+    return seen
 
 
 class Check:
@@ -264,7 +296,7 @@ class Check:
         targets = [vfile + "o"] + list(extra_targets)
         ok, log = coq_make(targets, timeout)
         self.cov["checker_cmd"] = "cd /verif/coq && coq_makefile -f _CoqProject -o Makefile && make -k -j16 " + " ".join(targets) + "  (coqc 8.16.1, full .vo build, kernel-checked Qed; vm_compute only)"
-        hy = coq_hygiene()
+        hy = coq_hygiene(set(coq_closure(vfile)))
         if hy:
             self.violation("hygiene", "forbidden declaration in the Coq development: " + "; ".join(hy[:5]),
                            {"kind": "proof-hygiene", "hits": hy}, found=False)
